@@ -10,7 +10,7 @@ BAG = PKT('Bag', [('num', I(1)), ('objs', S(I(1), F('num')))])
 
 
 def _sel_table():
-    return [(1, I(2)), (2, D(C(1))), (3, SUB)]
+    return [(1, I(2, signed=True)), (2, D(C(1))), (3, SUB)]
 
 
 def components():
@@ -70,6 +70,13 @@ def components():
     add('sm', lambda i: [('n%d' % i, I(1)), ('l%d' % i, S(DM(b'\x00'), F('n%d' % i)))])
     add('sr', lambda i: [('n%d' % i, I(1)), ('l%d' % i, S(R(SUB), F('n%d' % i)))])
     add('srs', lambda i: [('t%d' % i, I(1)), ('l%d' % i, S(RS(F('t%d' % i), _sel_table(), 0), C(2), default=[]))])
+    add('ss', lambda i: [('n%d' % i, I(1)), ('l%d' % i, S(I(2, signed=True), F('n%d' % i)))])
+    add('ssl', lambda i: [('l%d' % i, S(I(1, signed=True, end='little'), C(2)))])
+    add('srem', lambda i: [('l%d' % i, S(I(1), ['rem'], csp='rem'))])
+    add('drem', lambda i: [('d%d' % i, D(['rem'], sp='rem'))])
+    add('sue', lambda i: [('l%d' % i, S(I(1), until={'u': 'at_end'}))])
+    add('suo', lambda i: [('l%d' % i, S(I(1), until={'u': 'off_ge', 'v': 1}))])
+    add('suo2', lambda i: [('h%d' % i, I(1)), ('l%d' % i, S(D(C(1)), until={'u': 'off_ge', 'v': 3}))])
     add('su', lambda i: [('l%d' % i, S(I(1), until={'u': 'last_eq', 'v': 0}))])
     add('sur', lambda i: [('l%d' % i, S(R(SUB), until={'u': 'last_eq', 'attr': 'x', 'v': 0}))])
     add('sul', lambda i: [('l%d' % i, S(I(1), until={'u': 'len_eq', 'v': 2}))])
@@ -84,6 +91,7 @@ def components():
     add('o2', lambda i: [('t%d' % i, I(1)), ('o%d' % i, O(D(C(2)), BIN('eq', F('t%d' % i), C(1))))])
     add('or', lambda i: [('t%d' % i, I(1)), ('o%d' % i, O(R(SUB), BIN('and_', F('t%d' % i), C(2))))])
     add('om', lambda i: [('t%d' % i, I(1)), ('o%d' % i, O(DM(b'\x00'), F('t%d' % i), wsp='lambda'))])
+    add('os', lambda i: [('t%d' % i, I(1)), ('o%d' % i, O(I(2, signed=True), F('t%d' % i)))])
     add('od', lambda i: [('t%d' % i, I(1)), ('o%d' % i, O(I(1), F('t%d' % i), default=7))])
     add('oo', lambda i: [('t%d' % i, I(1)), ('o%d' % i, O(I(1), F('t%d' % i))), ('w%d' % i, O(I(1), F('o%d' % i)))])
     # ---- positioning
@@ -114,7 +122,7 @@ def components():
 COMPONENTS = components()
 
 # one representative per mechanism, used for pairs in the quick tier and triples in the thorough tier
-REDUCED = ['i1', 'i2l', 'i3', 'dn', 'dx', 'm0', 'mab', 'rx', 'b35', 'r1', 'rs', 'sn', 'su', 'sw', 'sa', 'sr', 'o1', 'or',
+REDUCED = ['i1', 'i2l', 'i3', 'dn', 'dx', 'm0', 'mab', 'rx', 'b35', 'r1', 'rs', 'sn', 'ss', 'su', 'suo', 'sw', 'sa', 'sr', 'o1', 'os', 'or',
            'p_at3', 'p_atn', 'p_shm1', 'p_shm2d', 'p_al2', 'p_al4i', 'p_em4', 'p_d0', 'eos']
 
 
@@ -159,6 +167,8 @@ def scan(P):
                 feats.add('oddint')
         elif k == 'data':
             feats.add('data:' + node['mode'])
+            if node.get('sp') == 'rem':
+                feats.add('rawcb')
             if node['mode'] in ('marker', 'regex'):
                 if not node.get('consume', True):
                     feats.add('nonconsume')
@@ -182,6 +192,10 @@ def scan(P):
                 feats.add('elem_aligned')
             if node['until'] is not None:
                 feats.add('until')
+                if node['until']['u'] == 'at_end':
+                    feats.add('rawcb')
+            if node.get('csp') == 'rem':
+                feats.add('rawcb')
             if node['when'] is not None:
                 feats.add('seqwhen')
             node_feats(node['elem'], False)
